@@ -336,3 +336,14 @@ PROPS["C09"]["observables"] = ["status", "ups", "cutset"]
 PROPS["C10"]["observables"] = ["status", "ndom", "ups", "cutset"]
 PROPS["C12"]["observables"] = ["log", "polls"]
 PROPS["C13"]["observables"] = ["expanded"]
+# the optimality theorems of the solvers (C01 sequential, C03 parallel) assume the diagram contracts; their tie to the code
+# therefore also covers what the solvers consume from a compilation: outcome and best values, cut-set (with bounds) and the
+# thresholds written to the cache
+for _p in ("C01", "C03"):
+    PROPS[_p]["engines"] = PROPS[_p]["engines"] + MDD_ENGINES[:2]
+    PROPS[_p]["observables"] = ["status", "cutset", "ups"]
+    # focused generators for the failing-input search that follows a broken tie / proof obligation
+    PROPS[_p]["search"] = ([dict(name="seq", label="seq_focus_cache", args=["--focus-cache"]), dict(name="seq", label="seq_focus_dom", args=["--focus-dominance"])] if _p == "C01"
+                           else [dict(name="par", label="par_focus_cache", args=["--focus-cache"]), dict(name="par", label="par_focus_dom", args=["--focus-dominance"])])
+    PROPS[_p]["trivial_tags"] = PROPS[_p]["trivial_tags"] + MDD_TRIVIAL
+    PROPS[_p]["rule"] = PROPS[_p]["rule"] + "; plus single compilations (engine mdd): " + MDD_RULE
